@@ -93,6 +93,11 @@ def _thub_expr(al, lit, s, p):
   return al.Stream(h) + al.Stream(h) * al.Stream(h)
 
 
+def _agc(al, src):
+  sig = al.thub(src, 2)
+  return (1 / ((abs(sig) + 1) - .5 * al.z ** -1))(sig)
+
+
 def _streamix(al, lit, s, p):
   m = al.Streamix()
   m.add(p[0], s[0])
@@ -213,6 +218,8 @@ STAGES = {
   "ParallelFilter": stage(lambda p: "(GPar %s)" % L.nat(p[0]),
                           lambda al, lit, s, p: al.ParallelFilter(*[1 - Z(al) ** -(j + 1) for j in range(p[0])])(s[0]),
                           grid=lambda tier: [[1], [2], [3], [4]], kind="par"),
+  # automatic gain control: a0 derived from a thub of the input itself (one source, two tee copies)
+  "filter.gain_from_input": stage(lambda p: "(GPar 2)", lambda al, lit, s, p: _agc(al, s[0]), kind="par"),
   "thub.expr": stage(lambda p: "(GPar 3)", _thub_expr, kind="par"),
   # ---- several sources, one read on each per output -------------------------------------------
   "Stream.add_stream": stage(lambda p: "(GZip %s)" % nl([0, 1]), lambda al, lit, s, p: al.Stream(s[0]) + al.Stream(s[1]),
@@ -230,6 +237,26 @@ STAGES = {
   "filter.timevar_both": stage(lambda p: "(GZip %s)" % nl([0, 1, 2]),
                                lambda al, lit, s, p: ((al.Stream(s[1]) * Z(al) ** -1) / (1 + al.Stream(s[2]) * Z(al) ** -1))(s[0]),
                                nsrc=3, first=True, kind="zip"),
+  # variable output gain: the z^0 denominator coefficient a0 is itself a Stream (a counted source)
+  "filter.gain_den": stage(lambda p: "(GZip %s)" % nl([0, 1]),
+                           lambda al, lit, s, p: (1 / ((al.Stream(s[1]) + 1) - .5 * Z(al) ** -1))(s[0]),
+                           nsrc=2, first=True, kind="zip"),
+  "filter.gain_den_num": stage(lambda p: "(GZip %s)" % nl([0, 1]),
+                               lambda al, lit, s, p: ((1 + Z(al) ** -1) / ((al.Stream(s[1]) + 1) - .5 * Z(al) ** -1))(s[0]),
+                               nsrc=2, first=True, kind="zip"),
+  "filter.gain_only": stage(lambda p: "(GZip %s)" % nl([0, 1]),
+                            lambda al, lit, s, p: (1 / ((al.Stream(s[1]) + 1) + 0 * Z(al) ** -1))(s[0]),
+                            nsrc=2, first=True, kind="zip"),
+  "filter.gain_den_timevar_num": stage(lambda p: "(GZip %s)" % nl([0, 2, 1]),
+                                       lambda al, lit, s, p: ((al.Stream(s[2]) * Z(al) ** -1) /
+                                                              ((al.Stream(s[1]) + 1) - .5 * Z(al) ** -1))(s[0]),
+                                       nsrc=3, first=True, kind="zip"),
+  "filter.lowpass_stream": stage(lambda p: "(GZip %s)" % nl([0, 1]),
+                                 lambda al, lit, s, p: al.lowpass(al.Stream(s[1]) * 0 + .1)(s[0]),
+                                 nsrc=2, first=True, kind="zip"),
+  "filter.resonator_stream": stage(lambda p: "(GZip %s)" % nl([0, 1]),
+                                   lambda al, lit, s, p: al.resonator(al.Stream(s[1]) * 0 + .2, .05)(s[0]),
+                                   nsrc=2, first=True, kind="zip"),
   "modulo_counter.start_step": stage(lambda p: "(GZip %s)" % nl([0, 1]), lambda al, lit, s, p: al.modulo_counter(s[0], 7., s[1]),
                                      nsrc=2, first=True, kind="zip"),
   "modulo_counter.all": stage(lambda p: "(GZip %s)" % nl([0, 1, 2]),
